@@ -206,6 +206,31 @@ func (fx *FuncCtx) libraryModel(st *State, callee *types.Func, qn string, recv V
 		}
 	case "sort":
 		return fx.sortModel(st, callee, call)
+	case "slices":
+		if callee.Name() == "Reverse" && len(call.Args) == 1 {
+			// slices.Reverse(s): in place, s[k] becomes the old s[len-1-k]; nothing else changes (exact)
+			sv, ok := fx.eval(st, call.Args[0]).(SliceV)
+			if !ok {
+				return nil, false
+			}
+			if scalarSort(sv.Elem) == "" {
+				return nil, false
+			}
+			fx.checkStoreRange(st, sv, IntLit(0), sv.Len, call)
+			es := fx.elemSort(sv.Elem)
+			name := memName(sv.Elem)
+			m := fx.heapGet(st, name, fx.memSort(sv.Elem))
+			old := Select(m, sv.Rid, ArraySort(SInt, es))
+			row := fx.freshConst("reversed_row", ArraySort(SInt, es))
+			q := fx.freshName("q_rv")
+			inr := fmt.Sprintf("(and (<= %s %s) (< %s (+ %s %s)))", sv.Off.S, q, q, sv.Off.S, sv.Len.S)
+			st.assume(Term{fmt.Sprintf("(forall ((%s Int)) (=> (not %s) (= (select %s %s) (select %s %s))))", q, inr, row.S, q, old.S, q), SBool})
+			k := fx.freshName("q_rk")
+			st.assume(Term{fmt.Sprintf("(forall ((%s Int)) (=> (and (<= 0 %s) (< %s %s)) (= (select %s (+ %s %s)) (select %s (+ %s (- (- %s 1) %s))))))", k, k, k, sv.Len.S, row.S, sv.Off.S, k, old.S, sv.Off.S, sv.Len.S, k), SBool})
+			st.heap[name] = fx.define(name, Store(m, sv.Rid, row))
+			return TupleV{}, true
+		}
+		return nil, false
 	case "bytes":
 		if callee.Name() == "NewReader" || callee.Name() == "NewBuffer" {
 			sv, ok := fx.eval(st, call.Args[0]).(SliceV)
